@@ -1,5 +1,1234 @@
-"""C16 second half -- has_side_effect / delete_pointless_statements (EffectModel.v)."""
+"""C16 second half -- has_side_effect / safe_callable_names / delete_pointless_statements (EffectModel.v).
+
+  1. correspondence core.has_side_effect  vs  EffectModel.hse / hse_s  (exhaustive contexts x sub-terms, random)
+  2. correspondence parsing.safe_callable_names + the deletion decision of delete_pointless_statements
+     vs EffectModel.safe_callable_names / pointless on generated modules
+  3. validation of the reference semantics EffectModel.eval / exec against CPython (logging stubs, every script
+     of the unknown truth values / iteration counts)
+  4. end-to-end property oracle: statement + observable call, through delete_pointless_statements, executed
+     before / after under every script; failures must match a listed finding's predicate
+"""
+from __future__ import annotations
+
+import ast
+import hashlib
+import itertools
+import random
+from collections import Counter
+
+from . import common
+from . import c16_terms as T
+from .common import glist
+
+PID = "C16"
+
+# ---------------------------------------------------------------------------------------------
+# term pools
+
+X = ("name", "x")
+Y = ("name", "y")
+US = ("name", "_")
+ONE = ("const", False, "1")
+STR = ("const", True, "'s'")
+
+
+def call(f, *args, kw=()):
+    return ("call", ("name", f) if isinstance(f, str) else f, list(args), list(kw))
+
+
+G1 = [(("name", "x"), Y, [])]
+
+INTERESTING = [
+    X, US, ONE, STR,
+    call("f"), call("len", X), call("g", X), call("_"), call("print", X),
+    ("attr", X, "a"), ("attr", X, "g"), call(("attr", STR, "join"), X), call(("attr", STR, "g"), call("f")),
+    call(("attr", STR, "join"), call("join", X)),
+    ("named", "y", ONE), ("named", "_", ONE),
+    ("lambda", [], None, [], call("f")), ("lambda", ["p"], None, [], ONE), ("lambda", [], "a", [], ONE),
+    ("comp", "list", call("f"), G1), ("comp", "list", X, G1), ("comp", "gen", call("f"), G1),
+    ("dictcomp", call("f"), ONE, G1), ("dictcomp", ONE, call("f"), G1),
+    ("comp", "list", X, [(("tuple", ["x", "z"]), Y, [])]),
+    ("other", "yield", []),
+    ("fstr", [("fmt", call("f"), None)]), ("fstr", [("const", True, "'t'", "t"), ("fmt", X, ("fstr", [("fmt", call("f"), None)]))]),
+    ("fstr", [("fmt", X, None)]),
+    ("sub", X, ("slice", call("f"), None, None)), ("sub", X, ("slice", None, None, call("f"))), ("sub", X, ("slice", ONE, ONE, ONE)),
+    call("len", ("attr", X, "a")), call("len", ("attr", X, "g")), call(("attr", US, "g")), call(("attr", X, "g")),
+    call(call("len", X)), call("map", ("name", "f"), X), call("sorted", X, kw=[("key", ("name", "f"))]),
+    call(("attr", call("g"), "g")), call("len", ("star", X)), call("len", kw=[(None, X)]),
+    ("ifexp", X, call("f"), ONE), ("bool", "and", [X, call("f")]),
+]
+
+
+def contexts():
+    """single-hole expression contexts: functions term -> term"""
+    C = []
+    A = C.append
+    A(lambda h: ("unary", "not", h))
+    A(lambda h: ("bin", "+", h, X)); A(lambda h: ("bin", "+", X, h))
+    A(lambda h: ("cmp", h, [("<", X)])); A(lambda h: ("cmp", X, [("<", h)])); A(lambda h: ("cmp", X, [("<", Y), ("<", h)]))
+    A(lambda h: ("bool", "and", [h, X])); A(lambda h: ("bool", "or", [X, h]))
+    A(lambda h: ("ifexp", h, X, X)); A(lambda h: ("ifexp", X, h, X)); A(lambda h: ("ifexp", X, X, h))
+    A(lambda h: ("seq", "list", [h])); A(lambda h: ("seq", "tuple", [X, h])); A(lambda h: ("seq", "set", [h]))
+    A(lambda h: ("seq", "list", [("star", h)]))
+    A(lambda h: ("dict", [(h, X)])); A(lambda h: ("dict", [(X, h)])); A(lambda h: ("dict", [(None, h)]))
+    A(lambda h: ("attr", h, "a")); A(lambda h: ("attr", h, "g"))
+    A(lambda h: ("sub", h, X)); A(lambda h: ("sub", X, h))
+    A(lambda h: ("sub", X, ("slice", h, None, None))); A(lambda h: ("sub", X, ("slice", None, h, None)))
+    A(lambda h: ("sub", X, ("slice", None, None, h)))
+    A(lambda h: call(h)); A(lambda h: call("len", h)); A(lambda h: call("g", h)); A(lambda h: call("f", h))
+    A(lambda h: call("len", kw=[("k", h)])); A(lambda h: call("len", kw=[(None, h)])); A(lambda h: call("len", ("star", h)))
+    A(lambda h: call(("attr", h, "g"))); A(lambda h: call(("attr", h, "a")))
+    A(lambda h: call(("attr", STR, "join"), h)); A(lambda h: call(("attr", X, "g"), h))
+    A(lambda h: call("map", h, X))
+    A(lambda h: ("comp", "list", h, G1)); A(lambda h: ("comp", "set", h, G1)); A(lambda h: ("comp", "gen", h, G1))
+    A(lambda h: ("comp", "list", X, [(("name", "x"), h, [])])); A(lambda h: ("comp", "list", X, [(("name", "x"), Y, [h])]))
+    A(lambda h: ("comp", "list", X, [(("name", "x"), Y, [X, h])]))
+    A(lambda h: ("comp", "list", X, [(("name", "x"), Y, []), (("name", "z"), h, [])]))
+    A(lambda h: ("comp", "list", h, [(("tuple", ["x", "z"]), Y, [])]))
+    A(lambda h: ("dictcomp", h, X, G1)); A(lambda h: ("dictcomp", X, h, G1))
+    A(lambda h: ("fstr", [("fmt", h, None)])); A(lambda h: ("fstr", [("fmt", X, ("fstr", [("fmt", h, None)]))]))
+    A(lambda h: ("lambda", [], None, [], h)); A(lambda h: ("lambda", ["p"], None, [h], X))
+    A(lambda h: ("named", "y", h)); A(lambda h: ("named", "_", h))
+    A(lambda h: ("other", "yield", [h]))
+    return C
+
+
+def stmt_contexts():
+    C = []
+    A = C.append
+    A(lambda h: ("expr", h))
+    A(lambda h: ("assign", [("tname", "x")], h)); A(lambda h: ("assign", [("tname", "_")], h))
+    A(lambda h: ("assign", [("tname", "_"), ("tname", "_")], h))
+    A(lambda h: ("assign", [("tsub", US, h)], ONE)); A(lambda h: ("assign", [("tsub", X, h)], ONE))
+    A(lambda h: ("assign", [("tsub", h, ONE)], ONE))
+    A(lambda h: ("assign", [("tattr", h, "a")], ONE))
+    A(lambda h: ("assign", [("tseq", [("tname", "_"), ("tstar", ("tname", "_"))])], h))
+    A(lambda h: ("assign", [("tseq", [("tname", "_"), ("tname", "x")])], h))
+    A(lambda h: ("aug", ("tname", "_"), h)); A(lambda h: ("aug", ("tname", "x"), h))
+    A(lambda h: ("aug", ("tsub", US, h), ONE))
+    A(lambda h: ("if", h, [("pass",)], [])); A(lambda h: ("if", X, [("expr", h)], []))
+    A(lambda h: ("if", X, [("pass",)], [("expr", h)]))
+    A(lambda h: ("for", ("tname", "_"), h, [("pass",)], [])); A(lambda h: ("for", ("tname", "_"), X, [("expr", h)], []))
+    A(lambda h: ("for", ("tname", "_"), X, [("pass",)], [("expr", h)]))
+    A(lambda h: ("for", ("tname", "x"), Y, [("expr", h)], []))
+    A(lambda h: ("for", ("tsub", US, h), X, [("pass",)], []))
+    A(lambda h: ("for", ("tseq", [("tname", "_"), ("tname", "_")]), X, [("expr", h)], []))
+    A(lambda h: ("for", ("tname", "_"), X, [("if", Y, [("expr", h)], [("pass",)])], []))
+    A(lambda h: ("while", X, [("expr", h)], [])); A(lambda h: ("with", h, [("pass",)]))
+    A(lambda h: ("def", "def", "_", [], [h], [])); A(lambda h: ("def", "def", "_", [h], [], []))
+    A(lambda h: ("def", "def", "k", [], [h], []))
+    A(lambda h: ("def", "class", "_", [], [h], [("pass",)])); A(lambda h: ("def", "class", "_", [], [], [("expr", h)]))
+    A(lambda h: ("def", "class", "_", [], [], [("expr", STR), ("expr", h)]))
+    A(lambda h: ("if", X, [("ctl", "return")], [("expr", h)]))
+    A(lambda h: ("if", X, [("otherstmt", "import os")], [("expr", h)]))
+    return C
+
+
+def stable_hash(s: str) -> int:
+    return int(hashlib.sha1(s.encode()).hexdigest()[:8], 16)
+
+
+NAMES_CALL = ["f", "g", "len", "_", "map", "print", "sorted"]
+NAMES_DATA = ["x", "y", "_"]
+ATTRS = ["a", "g", "join", "format"]
+
+
+def rand_expr(rnd, d):
+    if d <= 0 or rnd.random() < 0.25:
+        return rnd.choice([X, Y, US, ONE, STR, call("f"), call("len", X), ("attr", X, "a")])
+    R = lambda: rand_expr(rnd, d - 1)  # noqa
+    k = rnd.choice(["unary", "bin", "cmp", "bool", "ifexp", "seq", "dict", "attr", "sub", "slice", "call", "call",
+                    "call", "mcall", "comp", "comp", "dictcomp", "fstr", "lambda", "named", "star", "other"])
+    if k == "unary":
+        return ("unary", rnd.choice(["not", "-"]), R())
+    if k == "bin":
+        return ("bin", "+", R(), R())
+    if k == "cmp":
+        return ("cmp", R(), [("<", R()) for _ in range(rnd.randint(1, 2))])
+    if k == "bool":
+        return ("bool", rnd.choice(["and", "or"]), [R() for _ in range(rnd.randint(2, 3))])
+    if k == "ifexp":
+        return ("ifexp", R(), R(), R())
+    if k == "seq":
+        return ("seq", rnd.choice(["list", "tuple"]), [R() for _ in range(rnd.randint(0, 2))])
+    if k == "dict":
+        return ("dict", [(R() if rnd.random() < 0.8 else None, R()) for _ in range(rnd.randint(0, 2))])
+    if k == "attr":
+        return ("attr", R(), rnd.choice(ATTRS))
+    if k == "sub":
+        return ("sub", R(), R())
+    if k == "slice":
+        return ("sub", R(), ("slice",) + tuple(R() if rnd.random() < 0.5 else None for _ in range(3)))
+    if k == "call":
+        f = ("name", rnd.choice(NAMES_CALL)) if rnd.random() < 0.8 else R()
+        args = [R() if rnd.random() < 0.9 else ("star", R()) for _ in range(rnd.randint(0, 2))]
+        kws = [(rnd.choice(["k", "key", None]), R()) for _ in range(rnd.randint(0, 1))]
+        return ("call", f, args, kws)
+    if k == "mcall":
+        recv = rnd.choice([STR, X, US, call("g")]) if rnd.random() < 0.8 else R()
+        return ("call", ("attr", recv, rnd.choice(ATTRS)), [R() for _ in range(rnd.randint(0, 1))], [])
+    if k in ("comp", "dictcomp"):
+        gens = []
+        for _ in range(rnd.randint(1, 2)):
+            tgt = ("name", rnd.choice(["x", "z"])) if rnd.random() < 0.85 else ("tuple", ["x", "z"])
+            gens.append((tgt, R(), [R() for _ in range(rnd.randint(0, 1))]))
+        if k == "comp":
+            return ("comp", rnd.choice(["list", "set", "gen"]), R(), gens)
+        return ("dictcomp", R(), R(), gens)
+    if k == "fstr":
+        return ("fstr", [("fmt", R(), None if rnd.random() < 0.6 else ("fstr", [("fmt", R(), None)]))
+                         for _ in range(rnd.randint(1, 2))])
+    if k == "lambda":
+        ps = rnd.choice([[], [], ["p"]])
+        return ("lambda", ps, None, [R()] if ps and rnd.random() < 0.5 else [], R())
+    if k == "named":
+        return ("named", rnd.choice(["y", "_"]), R())
+    if k == "star":
+        return ("seq", "list", [("star", R())])
+    return ("other", "yield", [R()])
+
+
+def rand_target(rnd, d):
+    r = rnd.random()
+    if r < 0.5:
+        return ("tname", rnd.choice(["x", "_", "_"]))
+    if r < 0.6:
+        return ("tattr", rand_expr(rnd, d), "a")
+    if r < 0.85:
+        return ("tsub", rnd.choice([US, X, rand_expr(rnd, d)]), rand_expr(rnd, d))
+    return ("tseq", [rand_target(rnd, d - 1) for _ in range(rnd.randint(1, 2))])
+
+
+def rand_stmt(rnd, d):
+    E = lambda: rand_expr(rnd, 2)  # noqa
+    if d <= 0 or rnd.random() < 0.35:
+        k = rnd.choice(["expr", "expr", "assign", "aug", "pass", "ctl", "def", "other"])
+        if k == "expr":
+            return ("expr", E())
+        if k == "assign":
+            return ("assign", [rand_target(rnd, 1) for _ in range(rnd.randint(1, 2))], E())
+        if k == "aug":
+            t = rand_target(rnd, 1)
+            return ("aug", t if t[0] in ("tname", "tattr", "tsub") else ("tname", "_"), E())
+        if k == "pass":
+            return ("pass",)
+        if k == "ctl":
+            return ("ctl", rnd.choice(["return", "raise", "break", "continue"]))
+        if k == "def":
+            kind = rnd.choice(["def", "class"])
+            return ("def", kind, rnd.choice(["_", "_", "k"]), [E()] if rnd.random() < 0.2 else [],
+                    [E() for _ in range(rnd.randint(0, 1))],
+                    [] if kind == "def" else [rand_stmt(rnd, 0)] if rnd.random() < 0.7 else [("pass",)])
+        return ("otherstmt", "import os")
+    B = lambda lo=1: [rand_stmt(rnd, d - 1) for _ in range(rnd.randint(lo, 2))]  # noqa
+    k = rnd.choice(["if", "if", "for", "for", "while", "with"])
+    if k == "if":
+        return ("if", E(), B(), B(0))
+    if k == "for":
+        return ("for", rand_target(rnd, 1), E(), B(), B(0))
+    if k == "while":
+        return ("while", E(), B(), B(0))
+    return ("with", E(), B())
+
+
+# ---------------------------------------------------------------------------------------------
+# 1. has_side_effect correspondence
+
+PRELUDE = ("From Coq Require Import List Bool String.\nImport ListNotations.\n"
+           "Require Import Pyrefact.EffectModel.\n"
+           "Definition bit (b : bool) : nat := if b then 1 else 0.\n")
+
+
+def intern_names(body: str) -> str:
+    """Coq parses string literals slowly: name every distinct literal once and refer to it by identifier"""
+    import re
+    names = sorted(set(re.findall(r'"([^"]*)"%string', body)))
+    idx = {n: f"nm{i}" for i, n in enumerate(names)}
+    defs = "".join(f'Definition {idx[n]} : name := "{n}"%string.\n' for n in names)
+    return defs + re.sub(r'"([^"]*)"%string', lambda m: idx[m.group(1)], body)
+
+
+def run_model_bits(wd, tag, typ, fn, cases, per=400):
+    """cases: list of (coq term text, whitelist names); returns for each (bit under the whitelist, bit under [])"""
+    files, shards = [], []
+    for k in range(0, len(cases), per):
+        shard = cases[k:k + per]
+        p = wd / f"{tag}_{k // per}.v"
+        body = ";\n ".join(f"({t}, {glist(wl, T.q)})" for t, wl in shard)
+        p.write_text(PRELUDE + intern_names(f"Definition cases : list ({typ} * list name) := [\n {body}\n].\n")
+                     + f"Eval vm_compute in (flat_map (fun c => [bit ({fn} (fst c) (snd c)); bit ({fn} (fst c) [])]) cases).\n")
+        files.append(p); shards.append(shard)
+    results = common.run_case_files(files)
+    out = []
+    for p, shard in zip(files, shards):
+        rc, txt = results[p]
+        bits = common.parse_nat_list(txt) if rc == 0 else None
+        if bits is None or len(bits) != 2 * len(shard):
+            raise RuntimeError(f"model evaluation failed for {p.name}: {txt[-1500:]}")
+        out += [(bool(bits[2 * i]), bool(bits[2 * i + 1])) for i in range(len(shard))]
+    return out
+
+
+def hse_cases(run, rnd):
+    ctx, sctx = contexts(), stmt_contexts()
+    exprs, stmts = [], []
+    for h in INTERESTING:
+        exprs.append(h)
+    for c in ctx:
+        for h in INTERESTING:
+            exprs.append(c(h))
+    n_full = len(exprs)
+    shard_k = 60 if run.tier == "quick" else 1
+    for c1 in ctx:
+        for c2 in ctx:
+            for h in INTERESTING:
+                e = c1(c2(h))
+                if shard_k == 1 or stable_hash(repr(e)) % shard_k == run.seed % shard_k:
+                    exprs.append(e)
+    for c in sctx:
+        for h in INTERESTING:
+            stmts.append(c(h))
+        for c2 in (ctx[::7] if run.tier == "quick" else ctx):
+            for h in (INTERESTING[4::4] if run.tier == "quick" else INTERESTING):
+                stmts.append(c(c2(h)))
+    n_exh_e, n_exh_s = len(exprs), len(stmts)
+    for _ in range(1200 if run.tier == "quick" else 20000):
+        exprs.append(rand_expr(rnd, rnd.choice([2, 3, 3, 4])))
+    for _ in range(500 if run.tier == "quick" else 8000):
+        stmts.append(rand_stmt(rnd, rnd.choice([1, 2, 2])))
+    return exprs, stmts, n_full, n_exh_e, n_exh_s
+
+
+def check_hse(run, mods, wd, rnd, cov):
+    core, constants = mods["core"], mods["constants"]
+    SAFE = frozenset(constants.SAFE_CALLABLES)
+    exprs, stmts, n_full, n_exh_e, n_exh_s = hse_cases(run, rnd)
+    wl_big = SAFE | {"g"}
+    disagreements = []
+    hist = Counter()
+    distinct = set()
+    rt_bad = 0
+
+    def one(kind, terms, to_src, to_coq, typ, fn):
+        nonlocal rt_bad
+        impl, cases, srcs = [], [], []
+        for t in terms:
+            src = to_src(t)
+            try:
+                node = ast.parse(src).body[0]
+            except SyntaxError as exc:  # the printer is wrong
+                raise RuntimeError(f"printer produced invalid Python: {src!r}: {exc}")
+            back = T.s_of(node)
+            want = t if kind == "stmt" else ("expr", t)
+            if T.strip_text(back) != T.strip_text(want):
+                rt_bad += 1
+                disagreements.append({"case": src, "problem": "printer/converter round trip", "term": repr(t)[:300],
+                                      "back": repr(back)[:300]})
+                continue
+            target = node if kind == "stmt" else node.value
+            names = T.names_in(t)
+            with common.quiet():
+                r = (bool(core.has_side_effect(target, wl_big)), bool(core.has_side_effect(target, frozenset())))
+            impl.append(r)
+            cases.append((to_coq(t), sorted(names & wl_big)))
+            srcs.append(src)
+            hist[t[0]] += 1
+        model = run_model_bits(wd, f"hse_{kind}", typ, fn, cases)
+        for src, a, b in zip(srcs, impl, model):
+            for wln, x, y in (("SAFE+g", a[0], b[0]), ("empty", a[1], b[1])):
+                if x != y:
+                    disagreements.append({"case": src, "whitelist": wln, "impl": x, "model": y, "fn": fn})
+            if not a[0]:
+                distinct.add(src)
+        return 2 * len(cases)
+
+    n1 = one("expr", exprs, lambda e: "(" + T.e_src(e) + ")\n", T.e_coq, "expr", "hse")
+    n2 = one("stmt", stmts, T.s_src, T.s_coq, "stmt", "hse_s")
+    cov.update(hse_evaluations=n1 + n2, hse_exhaustive_exprs=n_exh_e, hse_full_scope=n_full,
+               hse_exhaustive_stmts=n_exh_s, hse_random=len(exprs) - n_exh_e + len(stmts) - n_exh_s,
+               hse_no_side_effect_cases=len(distinct), hse_histogram=dict(hist), hse_disagreements=len(disagreements))
+    return disagreements, [T.e_src(exprs[5]), T.e_src(exprs[n_full + 3]), T.s_src(stmts[-1])]
+
+
+# ---------------------------------------------------------------------------------------------
+# 2. safe_callable_names + pointless decision on modules
+
+FUNC_TEXTS = [
+    "    return 1\n",
+    "    return {h}()\n",
+    "    {h}()\n    return 1\n",
+    "    print(1)\n    return 1\n",
+    "    x\n    return len(x)\n",
+    "    y = 1\n    return y\n",
+    "    _ = 1\n    return _\n",
+    "    for _ in x:\n        pass\n    else:\n        print(1)\n    return 1\n",
+    "    raise E\n",
+    "    raise E\n    print(1)\n",
+    "    while True:\n        print(1)\n",
+    "    while True:\n        pass\n",
+    "    if x:\n        return 1\n    return 2\n",
+    "    if x:\n        y\n    else:\n        {h}()\n",
+    "    return [{h}(x) for x in y]\n",
+    "    return 1\n    print(2)\n",
+    "    pass\n",
+    "    'doc'\n    return x.a\n",
+    "    assert False\n",
+    "    return print(1)\n",
+]
+MOD_TAILS = ["", "f = 1\n", "h = f\n", "f = g\n", "class A:\n    def __init__(self):\n        {b}\n",
+             "class A:\n    def __init__(self):\n        {b}\n    def m(self):\n        return f()\n",
+             "class B:\n    pass\n", "class C:\n    def __new__(cls):\n        return f()\n    def __init__(self):\n        print(1)\n"]
+STMT_TAILS = ["f()\n", "h()\n", "A()\n", "x\n", "'s'\n", "print(1)\n", "_ = f()\n", "[f() for x in y]\n",
+              "for _ in x:\n    f()\nelse:\n    h()\n", "if x:\n    f()\n", "while x:\n    f()\n    y = 1\n"]
+
+
+def gen_modules(run, rnd):
+    mods = []
+    names = ["f", "h"]
+    # exhaustive: two functions f, h over all pairs of bodies (h referenced from f's body)
+    for i, bf in enumerate(FUNC_TEXTS):
+        for j, bh in enumerate(FUNC_TEXTS):
+            if run.tier == "quick" and (i * 31 + j * 17) % 4 != run.seed % 4 and i != j:
+                continue
+            src = "def f():\n" + bf.format(h="h") + "def h():\n" + bh.format(h="f")
+            src += "f()\nh()\nx\n"
+            mods.append(src)
+    # duplicates, shadowing, classes, async, nesting
+    for i, bf in enumerate(FUNC_TEXTS):
+        for tail in MOD_TAILS:
+            src = "def f():\n" + bf.format(h="f") + tail.format(b="self.x = 1" if i % 2 else "pass") + "f()\nA()\n"
+            mods.append(src)
+        mods.append("def f():\n    return 1\ndef f():\n" + bf.format(h="f") + "f()\n")
+        mods.append("def f():\n" + bf.format(h="f") + "def f():\n    return 1\nf()\n")
+        mods.append("def k():\n    def f():\n    " + bf.format(h="f").replace("\n    ", "\n        ") + "    return f()\nk()\nf()\n")
+        mods.append("async def f():\n" + bf.format(h="f") + "f()\n")
+        mods.append("'doc'\ndef f():\n    'doc'\n    'more'\n" + bf.format(h="f") + "'s'\nf()\n")
+    for _ in range(150 if run.tier == "quick" else 3000):
+        fs = rnd.sample(["f", "h", "k", "f"], rnd.randint(1, 3))
+        src = ""
+        for nm in fs:
+            src += f"def {nm}():\n" + rnd.choice(FUNC_TEXTS).format(h=rnd.choice(names + ["k"]))
+        src += rnd.choice(MOD_TAILS).format(b=rnd.choice(["pass", "self.x = 1", "f()", "return h()"]))
+        for _ in range(rnd.randint(1, 3)):
+            src += rnd.choice(STMT_TAILS)
+        mods.append(src)
+    out, seen = [], set()
+    for m in mods:
+        try:
+            ast.parse(m)
+        except SyntaxError:
+            continue
+        if m not in seen:
+            seen.add(m)
+            out.append(m)
+    return out
+
+
+def module_model_input(mods, root):
+    """What EffectModel.safe_callable_names takes: the definitions in the order of core.walk, for each the
+    statements handed to has_side_effect (split by core.is_blocking) and the return values."""
+    core = mods["core"]
+    fdefs = list(core.walk(root, (ast.FunctionDef, ast.AsyncFunctionDef)))
+    shadowed = sorted({n.id for n in ast.walk(root) if isinstance(n, ast.Name) and isinstance(n.ctx, ast.Store)})
+    defs = []
+    for node in fdefs:
+        checked = []
+        for child in node.body:
+            if core.is_blocking(child):
+                if not isinstance(child, ast.Return):
+                    checked.append(child)
+                break
+            checked.append(child)
+        rets = [n.value for n in ast.walk(node) if isinstance(n, ast.Return)]
+        defs.append((node.name, [T.s_of(c) for c in checked],
+                     [T.CONST0 if v is None else T.e_of(v) for v in rets]))
+    classes = []
+    for node in ast.walk(root):
+        if isinstance(node, ast.ClassDef):
+            ctors = [fdefs.index(c) for c in node.body
+                     if isinstance(c, ast.FunctionDef) and c.name in ("__init__", "__post_init__", "__new__")]
+            classes.append((node.name, ctors))
+    return defs, shadowed, classes
+
+
+def check_modules(run, mods, wd, rnd, cov):
+    core, parsing, fixes, constants = mods["core"], mods["parsing"], mods["fixes"], mods["constants"]
+    SAFE = frozenset(constants.SAFE_CALLABLES)
+    sources = gen_modules(run, rnd)
+    disagreements = []
+    cases, keep = [], []
+    for src in sources:
+        core.parse.cache_clear()
+        root = core.parse(src)
+        try:
+            defs, shadowed, classes = module_model_input(mods, root)
+            body_terms = [T.s_of(c) for c in root.body]
+        except T.Unsupported:
+            continue
+        with common.quiet():
+            real = set(parsing.safe_callable_names(root)) - SAFE
+            deleted = {id(n) for n, _ in fixes.delete_pointless_statements._fix_func(src)}
+        real_flags = [id(c) in deleted for c in core.parse(src).body]
+        names = set()
+        for t in body_terms:
+            names |= T.names_in(t)
+        for _, ch, rets in defs:
+            names |= T.names_in(ch) | T.names_in(rets)
+        names |= {d[0] for d in defs} | {c[0] for c in classes}
+        base = sorted(names & SAFE)
+        dtxt = glist(defs, lambda d: f"(mkF {T.q(d[0])} {T.slist(d[1])} {T.elist(d[2], T.e_coq)})")
+        ctxt = glist(classes, lambda c: f"({T.q(c[0])}, {glist(c[1], str)})")
+        cases.append(f"({glist(base, T.q)}, {glist(shadowed, T.q)}, {dtxt}, {ctxt}, {T.slist(body_terms)})")
+        keep.append((src, sorted(real), real_flags, sorted(names - SAFE)))
+    # model: for each case, the safe names among the candidate names and the top-level deletion flags
+    files, shards = [], []
+    per = 150
+    for k in range(0, len(cases), per):
+        p = wd / f"mods_{k // per}.v"
+        body = ";\n ".join(cases[k:k + per])
+        cand = ";\n ".join(glist(kk[3], T.q) for kk in keep[k:k + per])
+        p.write_text(PRELUDE + intern_names(
+                     "Definition cases : list (list name * list name * list fdef * list (name * list nat) * stmts) := [\n "
+                     + body + "\n].\nDefinition cands : list (list name) := [\n " + cand + "\n].\n") +
+                     "Definition run1 (c : list name * list name * list fdef * list (name * list nat) * stmts) (cs : list name) : list nat :=\n"
+                     "  let '(base, sh, defs, cls, body) := c in\n"
+                     "  let safe := safe_callable_names base sh defs cls in\n"
+                     "  [List.length cs] ++ map (fun x => bit (mem x safe)) cs ++ map bit (pointless body safe) ++ [7].\n"
+                     "Eval vm_compute in (List.concat (map (fun p => run1 (fst p) (snd p)) (combine cases cands))).\n")
+        files.append(p); shards.append(keep[k:k + per])
+    results = common.run_case_files(files)
+    n_del = 0
+    for p, shard in zip(files, shards):
+        rc, txt = results[p]
+        nums = common.parse_nat_list(txt) if rc == 0 else None
+        if nums is None:
+            raise RuntimeError(f"model evaluation failed for {p.name}: {txt[-1500:]}")
+        pos = 0
+        for src, real, real_flags, cand in shard:
+            n = nums[pos]; pos += 1
+            assert n == len(cand), (n, cand)
+            msafe = sorted(c for c, b in zip(cand, nums[pos:pos + n]) if b); pos += n
+            mflags = [bool(b) for b in nums[pos:pos + len(real_flags)]]; pos += len(real_flags)
+            assert nums[pos] == 7, "desynchronised model output"; pos += 1
+            if msafe != real:
+                disagreements.append({"case": src, "fn": "safe_callable_names", "impl": real, "model": msafe})
+            if mflags != real_flags:
+                disagreements.append({"case": src, "fn": "delete_pointless_statements (top-level decision)",
+                                      "impl": real_flags, "model": mflags})
+            n_del += sum(real_flags)
+    cov.update(module_cases=len(keep), module_statements_deleted=n_del, module_disagreements=len(disagreements))
+    return disagreements, [keep[0][0], keep[len(keep) // 2][0]]
+
+
+# ---------------------------------------------------------------------------------------------
+# 3./4. execution with logging stubs
+
+
+class _Exhausted(BaseException):
+    pass
+
+
+class _Diverge(BaseException):
+    pass
+
+
+def _step_limit(limit):
+    n = [0]
+
+    def tr(frame, event, arg):
+        if event == "line":
+            n[0] += 1
+            if n[0] > limit:
+                raise _Diverge()
+        return tr
+    return tr
+
+
+class _Stop(Exception):
+    """raised by `raise E` in generated statements"""
+
+
+L_DRAWS = 5
+
+
+class World:
+    """One run: a script of draws, a log of events."""
+
+    def __init__(self, script, ho=()):
+        self.script, self.pos, self.log, self.ho = script, 0, [], frozenset(ho)
+
+    def draw(self):
+        if self.pos < len(self.script):
+            v = self.script[self.pos]
+            self.pos += 1
+            return v
+        if len(self.script) < L_DRAWS:
+            raise _Exhausted()
+        self.pos += 1
+        return 0
+
+
+def make_world_classes(w: World):
+    class U:
+        def __bool__(self):
+            return bool(w.draw())
+
+        def __iter__(self):
+            return iter([U() for _ in range(w.draw())])
+
+        def __getattr__(self, a):
+            if a.startswith("__") and a.endswith("__"):
+                raise AttributeError(a)
+            return M(a)
+
+        def __setattr__(self, a, v):
+            w.log.append(("storeattr",))
+
+        def __getitem__(self, i):
+            return U()
+
+        def __setitem__(self, i, v):
+            w.log.append(("storesub", isinstance(self, Stub) and self._name == "_"))
+
+        def __call__(self, *a, **k):
+            w.log.append(("call", "dyn"))
+            return U()
+
+        def __enter__(self):
+            w.log.append(("meth", False, "__enter__"))
+            return self
+
+        def __exit__(self, *a):
+            w.log.append(("meth", False, "__exit__"))
+            return False
+
+        def __format__(self, spec):
+            return "u"
+
+        def keys(self):
+            return []
+
+        __hash__ = object.__hash__
+
+    def _op(self, *a):
+        return U()
+
+    for nm in ("add", "radd", "iadd", "sub", "rsub", "lt", "gt", "le", "ge", "eq", "ne", "neg", "pos", "invert",
+               "mul", "rmul"):
+        setattr(U, f"__{nm}__", _op)
+
+    class M(U):
+        def __init__(self, a):
+            object.__setattr__(self, "_attr", a)
+
+        def __call__(self, *a, **k):
+            w.log.append(("meth", False, self._attr))
+            return U()
+
+    class Stub(U):
+        def __init__(self, name):
+            object.__setattr__(self, "_name", name)
+
+        def __call__(self, *a, **k):
+            w.log.append(("call", self._name))
+            if self._name in w.ho:
+                for x in list(a) + list(k.values()):
+                    if isinstance(x, Stub):
+                        w.log.append(("call", x._name))
+            return U()
+
+    class Env(dict):
+        """module namespace: every lookup gives the stub of that name (so that a callee is always identified
+        by its name); in `real` mode stored values are kept, so that defined functions really run"""
+
+        def __init__(self, stubs, g=None, real=False):
+            super().__init__()
+            self.stubs, self.g, self.real, self.vals = stubs, g, real, {}
+
+        def __getitem__(self, k):
+            if k == "E":
+                return _Stop
+            if self.real and k in self.vals:
+                return self.vals[k]
+            return self.stubs[k] if k in self.stubs else Stub(k)
+
+        def __setitem__(self, k, v):
+            if k != "__doc__":
+                w.log.append(("bind", k))
+            if self.real:
+                self.vals[k] = v
+                if self.g is not None:
+                    self.g[k] = v
+
+    return U, Stub, Env
+
+
+def explore_src(src, names, ho, real=False):
+    """all behaviours (trace, outcome) over every script of draws in {0,1,2} of length <= L_DRAWS"""
+    import warnings
+    try:
+        with warnings.catch_warnings():
+            warnings.simplefilter("ignore")
+            code = compile(src, "<stmt>", "exec")
+    except SyntaxError:
+        return None
+    w = World([], ho)
+    U, Stub, Env = make_world_classes(w)
+    stubs = {n: Stub(n) for n in names}
+    seen, stack, runs, partial, errors = set(), [[]], 0, False, 0
+    while stack:
+        script = stack.pop()
+        w.script, w.pos, w.log = script, 0, []
+        g = dict(stubs)
+        g["E"] = _Stop
+        out = "N"
+        runs += 1
+        import sys
+        try:
+            if real:
+                sys.settrace(_step_limit(3000))     # defined functions really run: `while True: pass`
+            try:
+                exec(code, g, Env(stubs, g, real))
+            finally:
+                if real:
+                    sys.settrace(None)
+        except _Diverge:
+            partial = True
+            continue
+        except _Exhausted:
+            for v in (0, 1, 2):
+                stack.append(script + [v])
+            continue
+        except _Stop:
+            out = "raise"
+        except (TypeError, AttributeError, ValueError, KeyError, IndexError, NameError, RecursionError,
+                AssertionError, ZeroDivisionError):
+            partial = True
+            errors += 1
+            continue
+        if w.pos > L_DRAWS:
+            partial = True
+            continue
+        seen.add((tuple(w.log), out))
+        if runs > 3000:
+            partial = True
+            break
+    return seen, runs, partial, errors
+
+
+EV_CODES = """
+Definition enc_name (x : name) (tbl : list name) : nat :=
+  (fix go (l : list name) (i : nat) : nat :=
+     match l with [] => 0 | y :: tl => if String.eqb x y then i else go tl (S i) end) tbl 1.
+Definition enc_ev (tbl : list name) (e : event) : list nat :=
+  match e with
+  | EvCall (CName f) => [1; enc_name f tbl]
+  | EvCall (CMeth true a) => [2; enc_name a tbl]
+  | EvCall (CMeth false a) => [3; enc_name a tbl]
+  | EvCall CDyn => [4; 0]
+  | EvBind x => [5; enc_name x tbl]
+  | EvStoreAttr => [6; 0]
+  | EvStoreSub b => [7; bit b]
+  | EvOther => [8; 0]
+  end.
+Definition enc_out (o : outcome) : nat :=
+  match o with ONormal => 0 | OAbrupt CReturn => 1 | OAbrupt CRaise => 2 | OAbrupt CBreak => 3 | OAbrupt CContinue => 4 end.
+Fixpoint oracles (n : nat) : list (list nat) :=
+  match n with 0 => [[]] | S m => flat_map (fun o => [0 :: o; 1 :: o; 2 :: o]) (oracles m) end.
+Definition behaviours (tbl : list name) (s : stmt) : list (list nat) :=
+  nodup (list_eq_dec PeanoNat.Nat.eq_dec)
+    (map (fun o => let '(t, out, _) := exec s o in enc_out out :: List.concat (map (enc_ev tbl) t)) (oracles NDRAWS)).
+Definition sep (ls : list (list nat)) : list nat := List.concat (map (fun l => 9 :: l) ls) ++ [10].
+"""
+
+
+def model_behaviours(wd, tag, items, per=120, ndraws=None):
+    """items: list of (stmt term, name table); returns for each the set of (trace, outcome)"""
+    ndraws = L_DRAWS if ndraws is None else ndraws
+    files, shards = [], []
+    for k in range(0, len(items), per):
+        shard = items[k:k + per]
+        p = wd / f"{tag}_{k // per}.v"
+        body = ";\n ".join(f"({T.s_coq(s)}, {glist(tbl, T.q)})" for s, tbl in shard)
+        p.write_text(PRELUDE + EV_CODES.replace("NDRAWS", str(ndraws)) + intern_names(f"Definition cases : list (stmt * list name) := [\n {body}\n].\n") +
+                     "Eval vm_compute in (List.concat (map (fun c => sep (behaviours (snd c) (fst c))) cases)).\n")
+        files.append(p); shards.append(shard)
+    results = common.run_case_files(files)
+    out = []
+    for p, shard in zip(files, shards):
+        rc, txt = results[p]
+        nums = common.parse_nat_list(txt) if rc == 0 else None
+        if nums is None:
+            raise RuntimeError(f"model evaluation failed for {p.name}: {txt[-1500:]}")
+        pos = 0
+        for s, tbl in shard:
+            beh = set()
+            while nums[pos] == 9:
+                pos += 1
+                outc = nums[pos]; pos += 1
+                tr = []
+                while nums[pos] not in (9, 10):
+                    tr.append((nums[pos], nums[pos + 1])); pos += 2
+                beh.add((outc, tuple(tr)))
+            assert nums[pos] == 10
+            pos += 1
+            out.append(beh)
+        assert pos == len(nums)
+    return out
+
+
+def encode_py(beh, tbl):
+    idx = {n: i + 1 for i, n in enumerate(tbl)}
+    out = set()
+    for trace, outc in beh:
+        tr = []
+        for ev in trace:
+            if ev[0] == "call":
+                tr.append((4, 0) if ev[1] == "dyn" else (1, idx.get(ev[1], 0)))
+            elif ev[0] == "meth":
+                tr.append((3, idx.get(ev[2], 0)))
+            elif ev[0] == "bind":
+                tr.append((5, idx.get(ev[1], 0)))
+            elif ev[0] == "storeattr":
+                tr.append((6, 0))
+            elif ev[0] == "storesub":
+                tr.append((7, int(ev[1])))
+        out.add(({"N": 0, "raise": 2}[outc], tuple(tr)))
+    return out
+
+
+def drop_lit_methods(beh):
+    """calls of methods of literals cannot be observed from outside (real str/int methods)"""
+    return {(o, tuple(e for e in tr if e[0] != 2)) for o, tr in beh}
+
+
+def sem_ok(term) -> bool:
+    """terms whose execution with stubs is meaningful: no yield/await, no walrus inside a comprehension,
+    no literal receivers of attribute / subscript / call, callee names disjoint from locally bound names"""
+    arg_ids = set()
+    for n in T.walk(term):
+        if n and n[0] == "call":
+            arg_ids |= {id(a) for a in n[2]}
+    for n in T.walk(term):
+        if not n or not isinstance(n[0], str):
+            continue
+        if n[0] == "other" or n[0] == "otherstmt":
+            return False
+        if n[0] == "comp" and n[1] == "gen" and id(n) not in arg_ids:
+            return False      # consumed lazily: the model evaluates a generator expression where it is created
+        if n[0] == "seq" and any(x[0] == "star" for x in n[2]):
+            return False      # a display with more than two items (iteration counts explored: 0..2)
+        if n[0] in ("comp", "dictcomp"):
+            for m in T.walk(n[1:]):
+                if m and m[0] == "named":
+                    return False
+            bound = set()
+            for tgt, _, _ in n[-1]:
+                bound |= {tgt[1]} if tgt[0] == "name" else set(tgt[1])
+            for m in T.walk(n[1:]):
+                if m and m[0] == "call" and m[1][0] == "name" and m[1][1] in bound:
+                    return False
+                if m and m[0] == "call" and m[1][0] != "name":
+                    for mm in T.walk(m[1]):
+                        if mm and mm[0] == "name" and isinstance(mm[1], str) and mm[1] in bound:
+                            return False
+                if m and m[0] == "call" and any(a[0] == "name" and a[1] in bound for a in m[2]):
+                    return False
+        if n[0] in ("attr", "sub", "tattr", "tsub") and n[1][0] in ("const", "seq", "dict", "fstr", "comp", "dictcomp", "lambda"):
+            return False
+        if n[0] == "call" and n[1][0] in ("const", "seq", "dict", "fstr", "comp", "dictcomp", "lambda"):
+            return False
+        if n[0] == "call" and n[1][0] == "attr" and n[1][1][0] == "const":
+            return False
+        if n[0] == "def" and n[1] == "class" and (n[4] or any(s[0] in ("assign", "aug", "for", "def") for s in n[5])):
+            return False
+        if n[0] == "ctl" and n[1] != "raise":
+            return False
+        if n[0] == "def" and any(d[0] not in ("name", "attr", "call", "sub") for d in n[3]):
+            return False      # which object such a decorator evaluates to depends on values
+        if n[0] == "call" and n[1][0] not in ("name", "attr", "call", "sub"):
+            return False      # which object such a callee evaluates to depends on values
+        if n[0] == "call" and n[1][0] == "name" and n[1][1] in HO and any(
+                a[0] in ("bool", "ifexp", "named", "star") for a in list(n[2]) + [v for _, v in n[3]]):
+            return False      # which object reaches the higher-order builtin depends on values
+        if n[0] in ("fstr", "fmt") and any(m and m[0] == "lambda" for m in T.walk(n)):
+            return False      # the text of a formatted lambda contains an address
+        if n[0] == "for" and n[2][0] == "fstr":
+            return False      # iterating over the characters of a formatted string: more than two items
+        if n[0] in ("comp", "dictcomp") and any(it[0] == "fstr" for _, it, _ in n[-1]):
+            return False
+        if n[0] in ("tsub", "tattr") and n[1][0] not in ("name", "attr", "call", "sub"):
+            return False      # which object such a receiver evaluates to depends on values
+        if n[0] == "def" and n[1] == "class" and any(m and m[0] == "named" for m in T.walk(n[5])):
+            return False      # binds in the class namespace
+        if n[0] == "while" and n[1][0] not in ("name", "call", "attr", "sub"):
+            return False      # a test with a fixed truth value would not terminate
+        if n[0] == "lambda" and n[1]:
+            return False
+        if n[0] == "seq" and n[1] == "set":
+            return False
+        if n[0] == "dict" and any(k is not None for k, _ in n[1]):
+            pass
+    return True
+
+
+def model_draws(t, lpy) -> int:
+    """upper bound on the number of oracle draws EffectModel.exec makes for the term when every iterable has
+    at most two items (while loops: at most lpy iterations, each costs CPython a draw too)"""
+    D = lambda x: model_draws(x, lpy)  # noqa
+    k = t[0]
+    if k in ("const", "name", "pass", "ctl", "otherstmt", "tname"):
+        return 0
+    if k in ("unary",):
+        return D(t[2])
+    if k == "bin":
+        return D(t[2]) + D(t[3])
+    if k == "cmp":
+        return D(t[1]) + sum(D(r) for _, r in t[2]) + len(t[2]) - 1
+    if k == "bool":
+        return sum(D(v) for v in t[2]) + len(t[2]) - 1
+    if k == "ifexp":
+        return D(t[1]) + 1 + max(D(t[2]), D(t[3]))
+    if k == "seq":
+        return sum(D(x) for x in t[2])
+    if k == "dict":
+        return sum((0 if kk is None else D(kk)) + D(v) for kk, v in t[1])
+    if k in ("attr", "tattr", "star", "tstar"):
+        return D(t[1])
+    if k in ("sub", "tsub"):
+        return D(t[1]) + D(t[2])
+    if k == "slice":
+        return sum(D(x) for x in t[1:4] if x is not None)
+    if k == "call":
+        ho = 0
+        if t[1][0] == "name" and t[1][1] in HO:
+            ho = sum(1 for a in t[2] if a[0] == "name") + sum(1 for _, v in t[3] if v[0] == "name")
+        return D(t[1]) + sum(D(a) for a in t[2]) + sum(D(v) for _, v in t[3]) + ho
+    if k in ("comp", "dictcomp"):
+        inner = D(t[2]) if k == "comp" else D(t[1]) + D(t[2])
+        for _, it, ifs in reversed(t[-1]):
+            inner = D(it) + 1 + 2 * (sum(D(c) + 1 for c in ifs) + inner)
+        return inner
+    if k == "fstr":
+        return sum(D(p) for p in t[1])
+    if k == "fmt":
+        return D(t[1]) + (0 if t[2] is None else D(t[2]))
+    if k == "lambda":
+        return sum(D(d) for d in t[3])
+    if k == "named":
+        return D(t[2])
+    if k == "other":
+        return sum(D(x) for x in t[2])
+    if k == "tseq":
+        return sum(D(x) for x in t[1])
+    B = lambda b: sum(D(s) for s in b)  # noqa
+    if k == "expr":
+        return D(t[1])
+    if k == "assign":
+        return D(t[2]) + sum(D(x) for x in t[1])
+    if k == "aug":
+        return D(t[1]) + D(t[2])
+    if k == "if":
+        return D(t[1]) + 1 + max(B(t[2]), B(t[3]))
+    if k == "for":
+        return D(t[2]) + 1 + 2 * (D(t[1]) + B(t[3])) + B(t[4])
+    if k == "while":
+        return (lpy + 1) * (D(t[1]) + 1 + B(t[2])) + B(t[3])
+    if k == "with":
+        return D(t[1]) + B(t[2])
+    if k == "def":
+        return sum(D(x) for x in t[3]) + sum(D(x) for x in t[4]) + B(t[5])
+    raise ValueError(t)
+
+
+HO = ["map", "filter", "sorted", "min", "max", "iter", "__build_class__"]
+
+
+def check_semantics(run, mods, wd, rnd, cov):
+    global L_DRAWS
+    L_DRAWS = 4 if run.tier == "quick" else 5
+    sctx = stmt_contexts()
+    ctx = contexts()
+    terms = []
+    for c in sctx:
+        for h in INTERESTING:
+            terms.append(c(h))
+    for c in ctx:
+        for h in (INTERESTING[::4] if run.tier == "quick" else INTERESTING):
+            terms.append(("expr", c(h)))
+    n_exh = len(terms)
+    # CPython does not change with the repository: the random part is a fixed corpus (seed-independent)
+    rnd = random.Random(16016)
+    for _ in range(300 if run.tier == "quick" else 6000):
+        terms.append(rand_stmt(rnd, rnd.choice([1, 1, 2])))
+    items, pys = [], []
+    skipped, over_budget = 0, 0
+    for t in terms:
+        if not sem_ok(t):
+            skipped += 1
+            continue
+        need = model_draws(t, L_DRAWS)
+        if need > L_DRAWS + 2:
+            over_budget += 1      # the model's behaviours cannot be enumerated completely within the budget
+            continue
+        src = T.s_src(t)
+        names = sorted(T.names_in(t) | {"x", "y"})
+        r = explore_src(src, names, HO)
+        if r is None or not r[0]:
+            skipped += 1
+            continue
+        beh, runs, partial, _ = r
+        items.append((t, names, need))
+        pys.append((src, encode_py(beh, names), runs, partial))
+    # CPython does not draw for a test / iterable whose value is a literal, the model always does: the model is
+    # given enough draws for every path of the term (static bound), in two budget classes
+    small = [i for i, it in enumerate(items) if it[2] <= L_DRAWS]
+    large = [i for i, it in enumerate(items) if it[2] > L_DRAWS]
+    model = [None] * len(items)
+    for idxs, nd, tag, per in ((small, L_DRAWS, "sem", 120), (large, L_DRAWS + 2, "semL", 12)):
+        res = model_behaviours(wd, tag, [(items[i][0], items[i][1]) for i in idxs], per=per, ndraws=nd)
+        for i, r in zip(idxs, res):
+            model[i] = r
+    bad, imprecise, n_runs = [], 0, 0
+    for (t, names, need), (src, pbeh, runs, partial), mbeh in zip(items, pys, model):
+        n_runs += runs
+        mbeh2 = drop_lit_methods(mbeh)
+        extra = pbeh - mbeh2
+        if extra:
+            bad.append({"case": src, "observed_not_in_model": sorted(extra)[:3], "model": sorted(mbeh2)[:6]})
+        if not partial and mbeh2 - pbeh:
+            imprecise += 1
+    cov.update(semantics_cases=len(items), semantics_skipped=skipped, semantics_exhaustive_part=n_exh,
+               semantics_cpython_runs=n_runs, semantics_violations=len(bad), semantics_model_only_behaviours=imprecise,
+               semantics_over_budget=over_budget, semantics_large_budget_cases=len(large))
+    return bad
+
+
+# ---------------------------------------------------------------------------------------------
+# 4. end-to-end oracle through delete_pointless_statements
+
+
+def observable(beh, safe):
+    """what an observer sees: calls of callables that are not declared safe, bindings other than `_`,
+    stores, and how the program ended"""
+    out = set()
+    for trace, outc in beh:
+        tr = tuple(e for e in trace
+                   if not (e[0] == "call" and e[1] in safe) and not (e[0] == "bind" and e[1] == "_")
+                   and not (e[0] == "storesub" and e[1]))
+        out.add((tr, outc))
+    return out
+
+
+def finding_sig(src_before):
+    """structural predicates of the listed findings, on the statement under test (exactly the ways in which
+    EffectModel.plain_s can fail)"""
+    before = ast.parse(src_before)
+    sigs = set()
+    for node in ast.walk(before):
+        if isinstance(node, ast.Call):
+            f = node.func
+            if isinstance(f, ast.Name) and f.id == "_":
+                sigs.add("callee_by_name")
+            if isinstance(f, ast.Attribute) and not isinstance(f.value, ast.Constant):
+                sigs.add("callee_by_name")
+            if not isinstance(f, (ast.Name, ast.Attribute)):
+                sigs.add("callee_by_name")
+            if isinstance(f, ast.Name) and f.id in HO and any(
+                    isinstance(a, ast.Name) for a in list(node.args) + [k.value for k in node.keywords]):
+                sigs.add("higher_order_builtin")
+    return sigs
+
+
+def check_end_to_end(run, mods, wd, rnd, cov):
+    fixes, constants, core = mods["fixes"], mods["constants"], mods["core"]
+    SAFE = frozenset(constants.SAFE_CALLABLES)
+    sctx = stmt_contexts()
+    terms = []
+    for c in sctx:
+        for h in INTERESTING:
+            terms.append(c(h))
+    step = 1 if run.tier == "thorough" else 2
+    terms = [t for i, t in enumerate(terms) if sem_ok(t)][::step]
+    fails, known, n_changed, n_cases, n_error = [], Counter(), 0, 0, 0
+    for t in terms:
+        src = T.s_src(t) + "after()\n"
+        core.parse.cache_clear()
+        with common.quiet():
+            try:
+                out = fixes.delete_pointless_statements(src)
+            except Exception as exc:  # noqa
+                fails.append({"case": src, "problem": f"delete_pointless_statements raised {type(exc).__name__}: {exc}"})
+                continue
+        n_cases += 1
+        if out == src:
+            continue
+        n_changed += 1
+        names = sorted(T.names_in(t) | {"x", "y", "after"})
+        b1 = explore_src(src, names, HO)
+        b2 = explore_src(out, names, HO)
+        if b1 is None or b2 is None:
+            fails.append({"case": src, "after": out, "problem": "output does not compile"})
+            continue
+        if b1[3] or not b1[0]:
+            n_error += 1      # evaluating the statement raises (TypeError ...): outside the property
+            continue
+        o1, o2 = observable(b1[0], SAFE), observable(b2[0], SAFE)
+        if o1 != o2:
+            sigs = finding_sig(T.s_src(t))
+            rec = {"case": src, "after": out, "only_before": sorted(map(repr, o1 - o2))[:3],
+                   "only_after": sorted(map(repr, o2 - o1))[:3], "sigs": sorted(sigs)}
+            if sigs:
+                for s in sigs:
+                    known[s] += 1
+                rec["matched"] = True
+            fails.append(rec)
+    cov.update(e2e_cases=n_cases, e2e_rewritten=n_changed, e2e_failures=len([f for f in fails if not f.get("matched")]),
+               e2e_known=dict(known), e2e_skipped_evaluation_error=n_error)
+    return fails
+
+
+def search_failing_input(mods, src):
+    """the property's own oracle on one source text: run delete_pointless_statements, execute before / after
+    (defined functions really run) under every script; returns a record when the observable behaviours differ"""
+    fixes, constants, core = mods["fixes"], mods["constants"], mods["core"]
+    SAFE = frozenset(constants.SAFE_CALLABLES)
+    if not src.endswith("\n"):
+        src += "\n"
+    src = src + "after()\n"
+    core.parse.cache_clear()
+    with common.quiet():
+        try:
+            out = fixes.delete_pointless_statements(src)
+        except Exception:  # noqa
+            return None
+    if out == src:
+        return None
+    try:
+        names = sorted({n.id for n in ast.walk(ast.parse(src)) if isinstance(n, ast.Name)} | {"after"})
+    except SyntaxError:
+        return None
+    global L_DRAWS
+    saved, L_DRAWS = L_DRAWS, 4
+    try:
+        b1, b2 = explore_src(src, names, HO, real=True), explore_src(out, names, HO, real=True)
+    finally:
+        L_DRAWS = saved
+    if b1 is None or b2 is None or not b1[0]:
+        return None
+    o1, o2 = observable(b1[0], SAFE), observable(b2[0], SAFE)
+    if o1 != o2:
+        return {"case": src, "after": out, "only_before": sorted(map(repr, o1 - o2))[:3],
+                "only_after": sorted(map(repr, o2 - o1))[:3], "sigs": sorted(finding_sig(src))}
+    return None
+
+
+# ---------------------------------------------------------------------------------------------
+# witnesses of the repaired defects (must pass) and of the listed findings (must still fail)
+
+FIXED_WITNESSES = {
+    "F16-5": ["[print(x) for x in y]\n", "{print(x): 1 for x in y}\n", "{print(x) for x in y}\n",
+              "list(print(x) for x in y)\n"],
+    "F16-6": ["for _ in range(2):\n    pass\nelse:\n    print('x')\n"],
+    "F16-7": ["next(it)\n", "anext(it)\n", "help(x)\n", "license()\n", "copyright()\n", "credits()\n"],
+    "F16-8": ["x[1:2:print(3)]\n"],
+    "F16-9": ["''.join(join(x))\n"],
+    "F16-10": ["def _(x=print(1)):\n    pass\n", "@print\ndef _():\n    pass\n", "class _:\n    print(1)\n",
+               "class _(print(1)):\n    pass\n"],
+    "F16-11": ["def f():\n    raise E\nf()\n", "def f():\n    while True:\n        print(1)\nf()\n",
+               "def f():\n    assert False\nf()\n"],
+}
+FINDING_WITNESSES = {
+    "callee_by_name": ["_()\n",
+                       "class A:\n    def f(self):\n        return 1\nclass B:\n    def f(self):\n        print('x')\nB().f()\n",
+                       "from m import f\nclass A:\n    def f(self):\n        return 1\nf()\n",
+                       "class A(Base):\n    pass\nA()\n", "@deco\ndef f():\n    return 1\nf()\n"],
+    "higher_order_builtin": ["list(map(print, xs))\n", "sorted(xs, key=print)\n"],
+}
+
+
+def still_deleted(mods, src) -> bool:
+    mods["core"].parse.cache_clear()
+    with common.quiet():
+        out = mods["fixes"].delete_pointless_statements(src)
+    last = src.rstrip("\n").split("\n")[-1]
+    return last not in out.split("\n")
+
+
+# ---------------------------------------------------------------------------------------------
 
 
 def check(run, mods, wd, rnd):
-    run.coverage["effects"] = "not yet built"
+    import time
+    cov = {}
+    t0 = time.time()
+    d1, samples1 = check_hse(run, mods, wd, rnd, cov)
+    t1 = time.time()
+    d2, samples2 = check_modules(run, mods, wd, rnd, cov)
+    t2 = time.time()
+    sem_bad = check_semantics(run, mods, wd, rnd, cov)
+    t3 = time.time()
+    e2e = check_end_to_end(run, mods, wd, rnd, cov)
+    t4 = time.time()
+    cov["stage_wall_s"] = {"hse": round(t1 - t0, 1), "modules": round(t2 - t1, 1), "semantics": round(t3 - t2, 1),
+                           "end_to_end": round(t4 - t3, 1)}
+
+    # repaired defects: the witnesses must be kept
+    regress = []
+    for fid, ws in FIXED_WITNESSES.items():
+        for w in ws:
+            if still_deleted(mods, w):
+                regress.append({"finding": fid, "case": w})
+    cov["fixed_witnesses"] = sum(len(v) for v in FIXED_WITNESSES.values())
+
+    # listed findings
+    kf = {f.fields.get("sig"): f for f in common.load_findings(PID) if f.kind == "finding"}
+    unlisted = []
+    for sig, ws in FINDING_WITNESSES.items():
+        hit = [w for w in ws if still_deleted(mods, w)]
+        f = kf.get(sig)
+        if hit and f:
+            run.known_finding(f.id, f"{f.text} [{len(hit)}/{len(ws)} witnesses still deleted, e.g. {hit[0]!r}]")
+        elif hit:
+            unlisted += [{"case": w, "sig": sig} for w in hit]
+        elif f:
+            common.log(f"note: known finding {f.id} no longer reproduces")
+    e2e_fail = [f for f in e2e if not (f.get("matched") and all(s in kf for s in f["sigs"]))]
+
+    # ---- verdicts
+    real_fail = regress + unlisted + e2e_fail
+    for r in regress[:4]:
+        run.violation({"kind": "property-oracle", "site": "fixes.delete_pointless_statements", **r,
+                       "explanation": "a statement with an observable effect is deleted (witness of a repaired defect)"}, True)
+    for r in unlisted[:3]:
+        run.violation({"kind": "property-oracle", "site": "fixes.delete_pointless_statements", **r,
+                       "explanation": "a statement with an observable effect is deleted; not a listed finding"}, True)
+    for r in e2e_fail[:4]:
+        run.violation({"kind": "property-oracle", "site": "fixes.delete_pointless_statements", **r,
+                       "explanation": "executing the program before and after delete_pointless_statements under every "
+                                      "script of the unknowns gives different observable behaviours"}, True)
+    if not real_fail and (d1 or d2):
+        # failing-input search: the property's oracle on the disagreeing cases themselves
+        found = []
+        for d in (d1 + d2)[:60]:
+            if "case" in d and not d.get("problem"):
+                r = search_failing_input(mods, d["case"])
+                if r and not (r["sigs"] and all(s in kf for s in r["sigs"])):
+                    found.append({**r, "disagreement": {k: d[k] for k in d if k != "case"}})
+                    if len(found) >= 3:
+                        break
+        for r in found:
+            run.violation({"kind": "property-oracle", "site": "fixes.delete_pointless_statements", **r,
+                           "explanation": "found from a model/implementation disagreement: the program behaves "
+                                          "differently after delete_pointless_statements"}, True)
+        if not found:
+            for d in (d1 + d2)[:5]:
+                run.violation({"kind": "correspondence", "kernel": "K5 EffectModel", **d,
+                               "explanation": "model and implementation disagree; the end-to-end oracle found no "
+                                              "failing input among its cases or from the disagreeing cases"}, False)
+    for sb in sem_bad[:3]:
+        run.violation({"kind": "semantics-validation", "kernel": "K5 EffectModel.eval/exec", **sb,
+                       "explanation": "CPython exhibits a behaviour the reference semantics excludes"}, False)
+    cov["samples"] = samples1 + samples2
+    run.coverage["effects"] = cov
+    return cov
